@@ -874,14 +874,13 @@ def judge_e2e(ctx: Ctx, suite: str, case: Dict[str, Any], parents: Sequence[Opti
         if len(got) == 1 and got == exp and res.get("run") == "ok" and not contra:
             l = by[next(iter(got))]
             if l["jt"] in ("inner", "left", "outer") and "rows" in res:
-                lcls, rcls = (x, y) if o_dist(parents, x, l["l"]) is not None and o_dist(parents, y, l["r"]) is not None and (l["l"], l["r"]) != (l["r"], l["l"]) else (y, x)
-                if o_dist(parents, lcls, l["l"]) is None or o_dist(parents, rcls, l["r"]) is None:
-                    return
+                lcls, rcls = (x, y) if o_links(parents, [l], x, y) else (y, x)
                 ref = ref_join(l["jt"], e2e_data(lcls), e2e_data(rcls), l["li"][0], l["ri"][0], f"v{lcls}", f"v{rcls}")
                 cols = [f"v{lcls}", f"v{rcls}"]
                 if res.get("vcols") == sorted(cols):
                     perm = [cols.index(c) for c in res["vcols"]]
                     ref_rows = sorted([[r[p] for p in perm] for r in ref], key=lambda r: [(-1 if v is None else v) for v in r])
+                    ctx.tag("e2e_joined_rows_checked", l["jt"])
                     if ref_rows != res["rows"]:
                         ctx.violation(suite, case, f"consumer received rows that are not the {l['jt']} join on {l['li']}={l['ri']} described by the selected link", res["rows"], ref_rows)
 
